@@ -242,7 +242,33 @@ class CGetFileList(Contract):
         ctx = it.ctx
         env = ctx.env
         ctx.emit('fs', ('walk', path))
+        ctx.ghost.setdefault('gfl_args', []).append((path, extension, rev))
         return (path, list(env.d.names))
+
+
+
+def check_file_list_args(unit, P):
+    """every mode asks getFileList for the same list: this directory, Config.extension, Config.rev - so that count, list and
+    display-all agree on the files and on their order"""
+    inp = getattr(unit, '_last_inp', None)
+    calls = P.ctx.ghost.get('gfl_args', [])
+    if not calls or inp is None or 'config' not in inp:
+        return
+    P.prove(len(calls) == 1, "the file list is obtained once")
+    path, ext, rev = calls[0]
+    cfg = inp['config']
+    e_ok = (ext is None and field(cfg, 'extension') is None) or (ext is not None and field(cfg, 'extension') is not None and
+                                                                 Eq(ext, field(cfg, 'extension')) is not False and
+                                                                 (Eq(ext, field(cfg, 'extension')) is True or
+                                                                  P.ctx.is_true(Eq(ext, field(cfg, 'extension')))))
+    r = rev if not isinstance(rev, bool) else z3.BoolVal(rev)
+    c = field(cfg, 'rev')
+    c = c if not isinstance(c, bool) else z3.BoolVal(c)
+    r_ok = not isinstance(rev, (str, SStr)) and P.ctx.is_true(truth(r) == truth(c))
+    P.prove(Eq(path, inp['path']) is True or P.ctx.is_true(Eq(path, inp['path'])), "the file list is that of the directory asked for")
+    P.prove(bool(e_ok), "the file list is filtered with Config.extension (--extension)")
+    if not unit.target.endswith("printPELCount"):        # a count does not depend on the order
+        P.prove(bool(r_ok), "the file list is ordered with Config.rev (--reverse)")
 
 
 class _ModeUnit(Unit):
@@ -256,7 +282,8 @@ class _ModeUnit(Unit):
         n = S.choice("nfiles", self.NFILES)
         self._d = Dir(n)
         self.env = FsEnv(self._d)
-        return self.mode_inputs(S)
+        self._last_inp = self.mode_inputs(S)
+        return self._last_inp
 
     def setup_ctx(self, ctx):
         ctx.stdout_faults = False
@@ -265,6 +292,7 @@ class _ModeUnit(Unit):
         ctx = P.ctx
         muts = [e for e in ctx.fs if e[0] not in ('open_r', 'walk')]
         P.prove(muts == [], "the directory tree is left untouched (no remove / write / rename)")
+        check_file_list_args(self, P)
 
     def outcome_of(self, ctx, j):
         """what file j contributes, decided on this path: 'doc' | 'none' | 'error'"""
@@ -1112,6 +1140,7 @@ class CGetFileListN(Contract):
 
     def model(self, it, path, extension, rev=False):
         it.ctx.emit('fs', ('walk', path))
+        it.ctx.ghost.setdefault('gfl_args', []).append((path, extension, rev))
         return (path, it.ctx.env.d.names)
 
 
@@ -1191,7 +1220,8 @@ class _ModeUnitN(Unit):
 
     def inputs(self, S):
         self._S = S
-        return self.mode_inputs(S)
+        self._last_inp = self.mode_inputs(S)
+        return self._last_inp
 
     def setup_ctx(self, ctx):
         d = DirN(ctx)
@@ -1202,6 +1232,7 @@ class _ModeUnitN(Unit):
 
     def pure(self, P):
         P.prove(no_mutation(P.ctx), "the directory tree is left untouched (no remove / write / rename)")
+        check_file_list_args(self, P)
 
 
 class CountInv(_ModeInv):
